@@ -107,6 +107,28 @@ def run_book(case, bus, ex):
         except Exception as e:  # noqa: BLE001
             bus.flag("rollout_entries", f"{type(e).__name__}: {str(e)[:150]}", sig, witness=dict(info, exc=type(e).__name__))
             continue
+        # ---- reuse: the SAME rollout / repeat objects called again with another state and another aux must not remember anything of the first call
+        if n >= 1:
+            u1 = jtu.tree_map(lambda x: (x + 3).astype(x.dtype), u0)
+            if takes_aux:
+                if constant_aux:
+                    aux2 = {"d": jnp.asarray(2, dtype=jnp.int64), "v": jnp.asarray([1, 5, 5], dtype=jnp.int64)}
+                    aux2_model = [{"d": np.int64(2), "v": np.asarray([1, 5, 5], dtype=np.int64)}] * n
+                else:
+                    aux2 = {"d": jnp.asarray([(3 * i + 2) % 5 for i in range(n)], dtype=jnp.int64), "v": jnp.asarray([[(i + 4) % 5, 7, 7] for i in range(n)], dtype=jnp.int64).reshape(n, 3)}
+                    aux2_model = [{"d": np.int64((3 * i + 2) % 5), "v": np.asarray([(i + 4) % 5, 7, 7], dtype=np.int64)} for i in range(n)]
+            else:
+                aux2, aux2_model = None, None
+            model2 = loops.rollout_model(step_np, np_tree(u1), n, include_init=include_init, auxs=aux2_model)
+            try:
+                trj2 = ro(u1, aux2) if takes_aux else ro(u1)
+                last2 = rp(u1, aux2) if takes_aux else rp(u1)
+                tap.flush(); tap2.flush()
+                ok2 = all(np.array_equal(np.asarray(a)[i], b) for i in range(len(model2)) for a, b in zip(jtu.tree_leaves(trj2), jtu.tree_leaves(model2[i])))
+                ok2 &= all(np.array_equal(np.asarray(a), b) for a, b in zip(jtu.tree_leaves(last2), jtu.tree_leaves(model2[-1])))
+                bus.judge("rollout_entries", 0.0 if ok2 else 1.0, 0.5, sig + ("second call of the same object",), witness=dict(info, what="second call with another state/aux differs from the naive loop"), msg="" if ok2 else "second call of the same rollout/repeat object")
+            except Exception as e:  # noqa: BLE001
+                bus.flag("rollout_entries", f"second call raised {type(e).__name__}: {str(e)[:100]}", sig + ("second call of the same object",), witness=dict(info, exc=type(e).__name__))
         # ---- executions: exactly n, chained, aux in order
         nleaf = len(jtu.tree_leaves(u0))
         for which, lg in (("rollout", log), ("repeat", log2)):
